@@ -203,6 +203,19 @@ def space(kind, tier, seed=0):
                 for combo in wl + wl2:
                     out.append((algo, cfg, combo, tps, dict(over=over)))
         return out
+    if kind.startswith("busy:"):
+        # a busy pool: 4-5 single-operator pipelines of ONE class (long fillers, OOM->retry candidates, short ones)
+        algo = kind[5:]
+        cfgs = [(2, 5, 25, True, False), (2, 3, 25, True, False)] if algo == "priority-pool" else [(1, 5, 25, True, False), (1, 3, 25, True, False), (1, 5, 25, False, False)]
+        for tps in (1,):
+            for pr in (("I",), ("B",)) if not q else (("I",),):
+                one = [(pr[0], ar, "single", pf) for ar in (0, 1, 2) for pf in (("s3",), ("over",), ("s1",))]
+                for n in (4, 5):
+                    for combo in itertools.product(one, repeat=n):
+                        if all(combo[i][1] <= combo[i + 1][1] for i in range(n - 1)) and any(c[3] == ("over",) for c in combo):
+                            for cfg in cfgs:
+                                out.append((algo, cfg, combo, tps, dict(over=max(1, int(cfg[2] / 10)) + 0.5)))
+        return out
     if kind.startswith("corner:"):
         # corners of the configuration x workload space: 1 CPU, sub-GB RAM, zero-tick operators, growing memory
         algo = kind[7:]
@@ -255,7 +268,7 @@ def space(kind, tier, seed=0):
                 base += [(2, 1, 4), (2, 2, 40), (1, 1, 4), (2, 10, 25)]
             cfgs = [(p, c, r, m, False) for (p, c, r) in base for m in (True, False)]
         else:
-            base = [(2, 1, 25), (2, 2, 4), (2, 4, 25), (2, 10, 25), (2, 10, 40)] + ([] if q else [(2, 1, 4), (2, 2, 25), (2, 4, 40), (2, 20, 40)])
+            base = [(2, 1, 25), (2, 2, 4), (2, 3, 25), (2, 4, 25), (2, 10, 25), (2, 10, 40)] + ([] if q else [(2, 1, 4), (2, 2, 25), (2, 4, 40), (2, 20, 40)])
             cfgs = [(p, c, r, True, False) for (p, c, r) in base]
         for tps in ((1, 2) if q else (1, 2, 4)):
             if only_tps and tps != only_tps:
@@ -263,7 +276,8 @@ def space(kind, tier, seed=0):
             pr = ("Q", "I", "B")
             if q:
                 per2 = (pr, ("single", "chain2", "fork"), (("s1",), ("s2", "s1"), ("s1", "over")), (0, 1, 2))
-                per3 = (pr, ("single", "chain2"), (("s1",), ("s2",)) if kind == "priority-pool" else (("s2",),), (0, 1))
+                # three pipelines: a busy pool (long fillers) around an OOM->retry chain
+                per3 = (pr, ("single",), (("s3",), ("over",), ("s1",)), (0, 1)) if kind == "priority-pool" else (pr, ("single", "chain2"), (("s2",),), (0, 1))
                 per4 = None
             else:
                 per2 = (pr, ("single", "chain2", "chain3", "fork"), (("s1",), ("s2", "s1"), ("s1", "over")), (0, 1, 2, 4))
